@@ -3,6 +3,7 @@
   parser (`classify`, `stepTok`), the parser invariant, base64-accepted strings contain no white space,
   `trim` / `lines` facts, how a generated section continues a parse, and the declarative section reading.
 -/
+import KestrelProofs.Base64
 import KestrelModel.Keyring
 namespace Kestrel.KR
 open Kestrel.Keyring
